@@ -91,6 +91,10 @@ def share_rule(ctx, repo, rule):
                 okn = isinstance(s.op, ast.Div) and (_sum_of(s.value, X) or (T is not None and astq.is_name(s.value, T)))
                 ctx.check(okn, rule, fi, s, "proportions divided by their own sum", "`%s` does not divide the proportions by their own sum" % norm(s))
                 normalised = s
+                if "Residual" not in q:
+                    # a plain junction has no residual link: whatever its proportions sum to, all of its people must leave
+                    extra = [ast.unparse(t) for t, pol in guards_of(s) if ast.unparse(t) != "%s.vals[0] > 0" % me]
+                    ctx.check(not extra, rule, fi, s, "normalisation of a plain junction's proportions is unconditional", "`%s` is only executed when %s: for proportions that sum to less than 1 the shortfall is not passed on and the people are dropped when the junction is emptied" % (norm(s), extra[:2]), stmt_text="share:normalise-guard:%s" % q)
         env = {k: v for k, v in A.single_assign_env(fi.node, own_nodes).items() if k not in (F, L, X, N, T)}
         # the outer-product local of the residual balance stands for N*X
         resid_polys = []
